@@ -20,11 +20,13 @@
  *               prior + that text (append law on the implementation);
  *   return token = the text of r, pointers normalised (0x<9+ hex digits> -> P), capacities normalised (", size <n>" -> ", size S").
  * Heap balance per script (common.h): show must not leak.
+ * Before every show step the script id is written to the side file $VH_LAST (see vlib/x_x02.py).
  *
  * Text tokens (no blanks): ' ' -> '_', '\n' -> '|', printable characters as they are except _ | ^ % * ? which, like all other
  * bytes, are %XX; a run of >= 8 equal bytes is ^<byte>*<count>^; the empty text is %e.
  */
 #include "common.h"
+#include <fcntl.h>
 
 extern spif_iteratorclass_t SPIF_ITERATORCLASS_VAR(array), SPIF_ITERATORCLASS_VAR(linked_list), SPIF_ITERATORCLASS_VAR(dlinked_list);
 
@@ -140,6 +142,16 @@ static spif_str_t call_show(const ent_t *e, spif_charptr_t name, spif_str_t buff
     return ((show_fn) SPIF_OBJ_CALL_METHOD(e->o, show))(e->o, name, buff, indent);     /* through the object's class table */
 }
 
+/* Announces the step in the side file $VH_LAST before show runs: an overflow large enough to wreck the caller frames makes
+ * AddressSanitizer die inside its own report ("nested bug"), without the death callback that writes the C record. */
+static void announce(void) {
+    static int fd = -2; char b[96]; int n;
+    if (fd == -2) { const char *p = getenv("VH_LAST"); fd = p ? open(p, O_WRONLY | O_CREAT, 0600) : -1; }
+    if (fd < 0) return;
+    n = snprintf(b, sizeof(b), "%ld %d show      \n", vh_cur_sid, vh_cur_step);
+    if (pwrite(fd, b, (size_t) n, 0) < 0) { }
+}
+
 #define OP(s) (!strcmp(op, s))
 #define NEED(k) do { if (sp < (k)) return "stack_underflow"; } while (0)
 static const char *vh_step(const vh_step_t *st, vh_sb *ret, vh_sb *state) {
@@ -182,7 +194,11 @@ static const char *vh_step(const vh_step_t *st, vh_sb *ret, vh_sb *state) {
         spif_tok_t t; spif_obj_t src, sep;
         NEED(2);
         src = stk[sp - 2].o; sep = stk[sp - 1].o;
-        if (alt && !SPIF_OBJ_ISNULL(src)) { t = spif_tok_new_from_ptr(SPIF_STR_STR(SPIF_STR(src))); SPIF_OBJ_DEL(src); }
+        if (alt && !SPIF_OBJ_ISNULL(src)) {
+            /* (an empty str may be held as (NULL,0,0); tok_eval is not this check's subject, so it gets "" then) */
+            t = spif_tok_new_from_ptr(SPIF_STR_STR(SPIF_STR(src)) ? SPIF_STR_STR(SPIF_STR(src)) : (spif_charptr_t) "");
+            SPIF_OBJ_DEL(src);
+        }
         else { t = spif_tok_new(); if (!SPIF_OBJ_ISNULL(src)) spif_tok_set_src(t, SPIF_STR(src)); }
         if (!SPIF_OBJ_ISNULL(sep)) spif_tok_set_sep(t, SPIF_STR(sep));
         sp -= 2; push(SPIF_OBJ(t), 7, (spif_obj_t) NULL);
@@ -232,6 +248,7 @@ static const char *vh_step(const vh_step_t *st, vh_sb *ret, vh_sb *state) {
         stk[sp - 1].o = SPIF_OBJ(it); stk[sp - 1].aux = l; stk[sp - 1].cls += 3;
         sb_putc(ret, 'T');
     } else if (OP("show")) {
+        announce();
         size_t nn, pn = 0, indent = (size_t) strtoul(st->args[1], NULL, 10), g1n, g2n;
         unsigned char *name, *prior = NULL, *g1, *g2; spif_str_t buff = (spif_str_t) NULL, r1, r2; const char *inv = NULL;
         NEED(1);
